@@ -361,7 +361,33 @@ def runtime_state(idx: ProgramIndex, rep: Report):
                         continue
                     rep.add("C18-3", inst, where, why is not None,
                             why or "attribute `%s` is mutated at run time in %s but is neither a registered parameter/buffer nor a cache, training data, configuration or a restored temporary: it is not carried by state_dict" % (attr, m.name), {"classification": why})
+    # derived state computed directly in __init__: a plain attribute whose value is computed from the very tensors that __init__ registers
+    # as buffers / parameters (`self.w = upper - lower` next to register_buffer("upper", upper)).  load_state_dict replaces the
+    # registered tensors in place and knows nothing about the attribute: it has to be recomputed by _load_from_state_dict (or be a
+    # property).  Aliases of constructor arguments that are not registered tensors (callables, flags, sizes) are configuration.
+    m_init = 0
+    for cls in sorted(idx.package_classes(), key=lambda c: (c.module.name, c.qualname)):
+        for attr, uses, a in _derived_plain_attrs(idx, cls):
+            m_init += 1
+            init = cls.methods["__init__"]
+            ld = cls.lookup("_load_from_state_dict")
+            recomputed = ld is not None and ld.module.name.startswith(idx.package) and any(isinstance(t, ast.Attribute) and t.attr == attr and chain(t.value) == "self" for x in ast.walk(ld.node) if isinstance(x, ast.Assign) for t in x.targets)
+            rep.add("C18-3", "%s:%s.__init__:%s" % (cls.module.name, cls.qualname, attr), "%s:%d" % (init.module.relpath, a.lineno), recomputed,
+                    "derived from registered tensors and recomputed by _load_from_state_dict" if recomputed else
+                    "`self.%s` is computed in __init__ from %s, which are registered as buffers/parameters, and kept as a plain attribute: load_state_dict replaces the registered tensors in place, the attribute keeps the constructor's value, so a model loaded into an instance built with other values computes with stale derived state" % (attr, ", ".join(sorted(uses))), {"derived_from": sorted(uses)})
+    # positive control (the expected count on the library is zero)
+    ctl = idx.load_source("gpytorch._verif_control_c18", "import torch\nclass ControlWidth(torch.nn.Module):\n    def __init__(self, lo, hi):\n        super().__init__()\n        self.register_buffer('lo', lo)\n        self.register_buffer('hi', hi)\n        self.width = hi - lo\n        self.kind = 'x'\n")
+    try:
+        hits = _derived_plain_attrs(idx, ctl.classes["ControlWidth"])
+        if [h[0] for h in hits] != ["width"]:
+            raise AnalysisError("C18-3: positive control for derived plain attributes not matched (%s)" % [h[0] for h in hits])
+    finally:
+        for k in [k for k in idx.classes if k[0] == "gpytorch._verif_control_c18"]:
+            ci = idx.classes.pop(k)
+            idx.by_name[ci.name].remove(ci)
+        del idx.modules["gpytorch._verif_control_c18"]
     rep.floor("C18-3", "attribute stores outside __init__ classified", n, 48)
+    rep.analysed["C18-3 derived plain attributes in __init__"] = m_init
 
 
 def _init_reachable(cls: ClassInfo) -> Set[str]:
@@ -554,6 +580,53 @@ def pickling(idx: ProgramIndex, rep: Report):
                         pass  # dropping a cache is fine
             rep.add("C18-4", inst, dc.where, not probs, "re-construction passes every constructor parameter from self; caches are optional" if not probs else "; ".join(probs), {"constructor_params": params})
     rep.floor("C18-4", "__getstate__/__deepcopy__ overrides", n, 3)
+
+
+def _derived_plain_attrs(idx: ProgramIndex, cls: ClassInfo):
+    """[(attribute, registered tensors it is computed from, assignment)] for plain attributes that __init__ computes from the tensors it
+    registers as buffers / parameters"""
+    out = []
+    init = cls.methods.get("__init__")
+    if init is None:
+        return out
+    reg_locals, regs_here = set(), set()
+    for c in calls_in(init.node):
+        if isinstance(c.func, ast.Attribute) and c.func.attr in ("register_buffer", "register_parameter") and chain(c.func.value) == "self":
+            nm = get_arg(c, 0, "name")
+            v = get_arg(c, 1, "tensor") or get_arg(c, 1, "parameter")
+            if nm is not None and const_str(nm):
+                regs_here.add(const_str(nm))
+            if isinstance(v, ast.Name):
+                reg_locals.add(v.id)
+    if not regs_here:
+        return out
+    registered = registered_names(idx, cls) if cls.module.name.startswith(idx.package) and not cls.module.name.startswith(idx.package + "._verif") else set()
+    for a in ast.walk(init.node):
+        if not (isinstance(a, ast.Assign) and len(a.targets) == 1 and isinstance(a.targets[0], ast.Attribute) and chain(a.targets[0].value) == "self"):
+            continue
+        attr = a.targets[0].attr
+        if attr in regs_here or attr in registered:
+            continue
+        v = a.value
+        if isinstance(v, (ast.Name, ast.Constant, ast.Attribute)):
+            continue  # alias / configuration
+        if isinstance(v, ast.Call):
+            # sub-modules carry their own state
+            try:
+                k_ = idx.find_class((chain(v.func) or "").split(".")[-1])
+                if any(getattr(b_, "name", "") == "Module" for b_ in k_.mro()):
+                    continue
+            except AnalysisError:
+                pass
+            if (chain(v.func) or "").split(".")[-1] in ("Parameter",):
+                continue
+        # metadata reads (.device / .dtype) are not a data dependency
+        meta = {id(x.value) for x in ast.walk(v) if isinstance(x, ast.Attribute) and x.attr in ("device", "dtype") and isinstance(x.value, ast.Name)}
+        uses = {x.id for x in ast.walk(v) if isinstance(x, ast.Name) and id(x) not in meta} & reg_locals
+        uses |= {x.attr for x in ast.walk(v) if isinstance(x, ast.Attribute) and chain(x.value) == "self" and x.attr in regs_here}
+        if uses:
+            out.append((attr, uses, a))
+    return out
 
 
 # ---- C18-5 ---------------------------------------------------------------------------------------------------------
